@@ -12,6 +12,8 @@ Export ListNotations.
 
 Record obs := Obs {
   o_ok : bool;
+  o_read : bool;            (* the client read the answer ([false]: the renter left when the answer
+                               began to arrive; the host completed the RPC, the payload is unknown) *)
   o_payload : list Z;
   o_events : list event;
   o_accounts : list (N * Z);
@@ -36,7 +38,7 @@ Definition check_contract (s : st) (x : N * (N * Z * Z * bool)) : bool :=
 
 Definition check_obs (s' : st) (out : list event * res) (o : obs) : bool :=
   (match out.2 with
-   | ROk p => o_ok o && zlist_eqb p (o_payload o)
+   | ROk p => o_ok o && (negb (o_read o) || zlist_eqb p (o_payload o))
    | RErr => negb (o_ok o)
    end)
   && bool_decide (out.1 = o_events o)
